@@ -71,6 +71,11 @@ OpClear(d) == Ok(<<>>, NoRet)
 OpConstruct(kvm, vvm, ps) ==
   IF PairsOK(kvm, vvm, ps) THEN Ok(PutAll(<<>>, VPairs(kvm, vvm, ps)), NoRet) ELSE Fail(<<>>, {"TraitError"})
 
+\* whole-value assignment to a Dict trait (the TraitDict as the value of a trait on an owner object): the new
+\* contents are the validated pairs; a rejected assignment leaves the previous value in place
+OpAssign(d, kvm, vvm, ps) ==
+  IF PairsOK(kvm, vvm, ps) THEN Ok(PutAll(<<>>, VPairs(kvm, vvm, ps)), NoRet) ELSE Fail(d, {"TraitError"})
+
 \* a = <<a1, a2, a3>> ints; ps = pair list
 Apply(op, d, kvm, vvm, a, ps) ==
   CASE op = "setitem"    -> OpSetItem(d, kvm, vvm, a[1], a[2])
@@ -83,6 +88,7 @@ Apply(op, d, kvm, vvm, a, ps) ==
     [] op = "clear"      -> OpClear(d)
     [] op = "construct"  -> OpConstruct(kvm, vvm, ps)
     [] op = "copy"       -> Ok(d, NoRet)
+    [] op = "assign"     -> OpAssign(d, kvm, vvm, ps)
 
 \* ---- the event law of C06: ev = [removed, added, changed], each a pair list with distinct keys
 EvKeys(ev) == Keys(ev.removed) \cup Keys(ev.added) \cup Keys(ev.changed)
